@@ -14,6 +14,17 @@
 //        (p = 1 − E.powf(−1/s) and p_int = (p·2^64) as u64 are computed by the generator: libm / rand internals)
 //   c12.shares <eps> <delta> <cap> <r> <p> <p_int> <bit_size> <ov_bits> <L|R> <u64,…>
 //                                                  -> <shift> <sample> <left> <right> <consumed>
+//   c12.e2e <sh|mal> <B> <w> <ss_bits> <seed> <eps> <delta> <r> <p> <p_int> <hist> <s1> <s2> <s3>
+//        real dp_for_histogram::<_, B, BA<w>, ss_bits>(DiscreteLaplace{eps}) under TestWorld(seed) on the histogram <hist>;
+//        s_i = the u64 stream the pair of helpers excluding helper i draws from its shared sequential PRSS at the
+//        gate of LaplacePass<i> (obtained by the GENERATOR from a second TestWorld with the same seed — a sequential
+//        PRSS can be opened only once per gate, so the run itself cannot be instrumented)
+//        -> <noisy histogram> <ok|inconsistent>
+//   c12.pad oprf <sh|mal> <seed> <eps> <delta> <sens> <cap> <r> <p> <p_int> <s1> <s2> <s3>
+//   c12.pad agg <sh|mal> <seed> <B> <bk_bits> <eps> <delta> <sens> <r> <p> <p_int> <s1> <s2> <s3>
+//        real apply_dp_padding (three passes) on an empty input; s_i = stream of the generating pair of pass i
+//        -> <rows mk.bk.v.zmask,…> <ok|inconsistent> <lens-equal|lens-differ>
+//        (reconstructed fields; zmask = bit h set iff ALL shares of the row held by helper h+1 are zero)
 use std::f64::consts::E;
 
 use rand::distributions::Distribution;
@@ -332,3 +343,518 @@ fn verif_c12_sampler() {
     run_suite("c12_sampler", |rng, th| { let mut o = vec![]; gen_sampler(rng, th, &mut o); o }, exec);
 }
 
+
+// ---------------------------------------------------------------- c12_noise_e2e: dp_for_histogram, DiscreteLaplace
+mod e2e {
+    use std::array;
+
+    use rand_core::RngCore;
+
+    use super::{super::proto::*, ScriptRng, b, p_int, p_of_s, r_of};
+    use crate::{
+        ff::{
+            U128Conversions,
+            boolean::Boolean,
+            boolean_array::{BA8, BA16, BA32},
+        },
+        helpers::{Direction, Role},
+        protocol::{
+            context::{Context, UpgradableContext, dzkp_validator::DZKPValidator},
+            dp::{NoiseParams, dp_for_histogram, step::DPStep},
+            hybrid::step::HybridStep,
+            ipa_prf::oprf_padding::insecure::OPRFPaddingDp,
+        },
+        secret_sharing::{BitDecomposed, SharedValue, replicated::{ReplicatedSecretSharing, semi_honest::AdditiveShare}},
+        test_fixture::{Runner, TestWorld, TestWorldConfig},
+    };
+    use crate::protocol::context::MaliciousProtocolSteps;
+
+    const RUN_TIMEOUT_S: u64 = 60;
+
+    fn world(seed: u64) -> TestWorld {
+        TestWorld::new_with(TestWorldConfig::default().with_seed(seed).with_timeout_secs(RUN_TIMEOUT_S))
+    }
+
+    fn lanes<const N: usize>(bits: usize, xs: &[u128]) -> BitDecomposed<[Boolean; N]> {
+        BitDecomposed::new((0..bits).map(|i| array::from_fn(|lane| Boolean::from((xs.get(lane).copied().unwrap_or(0) >> i) & 1 == 1))))
+    }
+
+    /// The first `k` values of the three pairwise streams, each as seen by BOTH generating helpers
+    /// (`[pass][0]` = the helper right of the excluded one, `[pass][1]` = the helper left of it).
+    macro_rules! streams_fn {
+        ($fname:ident, $method:ident) => {
+            pub fn $fname(seed: u64, k: usize) -> Result<[Option<Vec<u64>>; 3], String> {
+                let res = block_on_timeout(RUN_TIMEOUT_S + 5, async move {
+                    let w = world(seed);
+                    w.$method((), move |ctx, ()| async move {
+                        let steps = MaliciousProtocolSteps {
+                            protocol: &HybridStep::DifferentialPrivacy,
+                            validate: &HybridStep::DifferentialPrivacyValidate,
+                        };
+                        let v = ctx.dzkp_validator(steps, 1);
+                        let c = v.context();
+                        let mut out: Vec<Option<Vec<u64>>> = vec![];
+                        for (step, excl) in [(DPStep::LaplacePass1, Role::H1), (DPStep::LaplacePass2, Role::H2), (DPStep::LaplacePass3, Role::H3)] {
+                            let pc = c.narrow(&step);
+                            match pc.role().direction_to(excl) {
+                                Some(dir) => {
+                                    let (mut left, mut right) = pc.prss_rng();
+                                    let rng = match dir {
+                                        Direction::Left => &mut right,
+                                        Direction::Right => &mut left,
+                                    };
+                                    out.push(Some((0..k).map(|_| rng.next_u64()).collect()));
+                                }
+                                None => out.push(None),
+                            }
+                        }
+                        out
+                    })
+                    .await
+                })?;
+                // res[h][pass]; both generating helpers must hold the same stream (PRSS pair property, C06)
+                let mut streams: [Option<Vec<u64>>; 3] = [None, None, None];
+                for pass in 0..3 {
+                    let have: Vec<&Vec<u64>> = (0..3).filter_map(|h| res[h][pass].as_ref()).collect();
+                    if have.len() != 2 || res[pass][pass].is_some() {
+                        return Err(format!("pass {}: generating helpers are not exactly the two non-excluded ones", pass + 1));
+                    }
+                    if have[0] != have[1] {
+                        return Err(format!("pass {}: the two generating helpers hold different streams", pass + 1));
+                    }
+                    streams[pass] = Some(have[0].clone());
+                }
+                Ok(streams)
+            }
+        };
+    }
+    streams_fn!(streams_sh, semi_honest);
+    streams_fn!(streams_mal, malicious);
+
+    macro_rules! run_fn {
+        ($fname:ident, $method:ident, $b:expr, $ov:ty, $ss:expr) => {
+            fn $fname(seed: u64, eps: f64, hist: &[u128]) -> String {
+                const B: usize = $b;
+                let input = lanes::<B>(<$ov>::BITS as usize, hist);
+                let res = block_on_timeout(RUN_TIMEOUT_S + 5, async move {
+                    let w = world(seed);
+                    w.$method(input, move |ctx, input: BitDecomposed<AdditiveShare<Boolean, B>>| async move {
+                        dp_for_histogram::<_, B, $ov, $ss>(ctx, input, crate::helpers::query::DpMechanism::DiscreteLaplace { epsilon: eps })
+                            .await
+                            .map_err(|e| format!("{e:?}"))
+                    })
+                    .await
+                });
+                let res = match res {
+                    Ok(r) => r,
+                    Err(e) => return e,
+                };
+                let outs: Vec<Vec<AdditiveShare<$ov>>> = match res.into_iter().collect::<Result<Vec<_>, _>>() {
+                    Ok(o) => o,
+                    Err(e) => return format!("err {}", e.split(['(', ' ', '{']).next().unwrap_or("")),
+                };
+                let mut ok = outs[0].len() == B && outs[1].len() == B && outs[2].len() == B;
+                let mut vals = vec![];
+                for i in 0..outs[0].len().min(outs[1].len()).min(outs[2].len()) {
+                    let (a, bb, c) = (&outs[0][i], &outs[1][i], &outs[2][i]);
+                    ok &= a.right() == bb.left() && bb.right() == c.left() && c.right() == a.left();
+                    vals.push((a.left() + bb.left() + c.left()).as_u128());
+                }
+                format!("{} {}", nat_list(&vals), if ok { "ok" } else { "inconsistent" })
+            }
+        };
+    }
+    run_fn!(run_sh_32_8_3, semi_honest, 32, BA8, 3);
+    run_fn!(run_sh_32_16_3, semi_honest, 32, BA16, 3);
+    run_fn!(run_sh_32_32_5, semi_honest, 32, BA32, 5);
+    run_fn!(run_sh_256_8_1, semi_honest, 256, BA8, 1);
+    run_fn!(run_sh_256_16_3, semi_honest, 256, BA16, 3);
+    run_fn!(run_sh_256_32_3, semi_honest, 256, BA32, 3);
+    run_fn!(run_mal_32_8_3, malicious, 32, BA8, 3);
+    run_fn!(run_mal_32_16_3, malicious, 32, BA16, 3);
+    run_fn!(run_mal_32_32_5, malicious, 32, BA32, 5);
+    run_fn!(run_mal_256_8_1, malicious, 256, BA8, 1);
+    run_fn!(run_mal_256_16_3, malicious, 256, BA16, 3);
+    run_fn!(run_mal_256_32_3, malicious, 256, BA32, 3);
+
+    pub const SHAPES: &[(usize, u32, usize)] = &[(32, 8, 3), (32, 16, 3), (32, 32, 5), (256, 8, 1), (256, 16, 3), (256, 32, 3)];
+
+    pub fn exec(req: &str) -> String {
+        let t: Vec<&str> = req.split(' ').collect();
+        assert_eq!(t[0], "c12.e2e");
+        let (bn, w, ss): (usize, u32, usize) = (t[2].parse().unwrap(), t[3].parse().unwrap(), t[4].parse().unwrap());
+        let seed: u64 = t[5].parse().unwrap();
+        let eps = super::f(t[6]);
+        let hist: Vec<u128> = parse_nat_list(t[11]);
+        match (t[1], bn, w, ss) {
+            ("sh", 32, 8, 3) => run_sh_32_8_3(seed, eps, &hist),
+            ("sh", 32, 16, 3) => run_sh_32_16_3(seed, eps, &hist),
+            ("sh", 32, 32, 5) => run_sh_32_32_5(seed, eps, &hist),
+            ("sh", 256, 8, 1) => run_sh_256_8_1(seed, eps, &hist),
+            ("sh", 256, 16, 3) => run_sh_256_16_3(seed, eps, &hist),
+            ("sh", 256, 32, 3) => run_sh_256_32_3(seed, eps, &hist),
+            ("mal", 32, 8, 3) => run_mal_32_8_3(seed, eps, &hist),
+            ("mal", 32, 16, 3) => run_mal_32_16_3(seed, eps, &hist),
+            ("mal", 32, 32, 5) => run_mal_32_32_5(seed, eps, &hist),
+            ("mal", 256, 8, 1) => run_mal_256_8_1(seed, eps, &hist),
+            ("mal", 256, 16, 3) => run_mal_256_16_3(seed, eps, &hist),
+            ("mal", 256, 32, 3) => run_mal_256_32_3(seed, eps, &hist),
+            _ => panic!("harness: no dp_for_histogram instantiation for {req}"),
+        }
+    }
+
+    /// how many u64 the real sampler consumes for `bn` draws from this stream (sizes the script in the request)
+    fn consumed(eps: f64, delta: f64, cap: u32, bn: usize, stream: &[u64]) -> usize {
+        let d = OPRFPaddingDp::new(eps, delta, cap).unwrap();
+        let mut rng = ScriptRng { script: stream.to_vec(), pos: 0 };
+        for _ in 0..bn {
+            let _ = d.sample(&mut rng);
+        }
+        rng.pos
+    }
+
+    pub fn generate(rng: &mut Rng, thorough: bool, out: &mut Vec<String>) {
+        let delta = NoiseParams::default().delta;
+        let mut case = 0u64;
+        let reps = if thorough { 6 } else { 1 };
+        for rep in 0..reps {
+            for mode in ["sh", "mal"] {
+                for &(bn, w, ss) in SHAPES {
+                    // quick tier: every shape semi-honest, the malicious mode on three of them
+                    if !thorough && mode == "mal" && !matches!((bn, w), (32, 8) | (256, 16) | (32, 32)) {
+                        continue;
+                    }
+                    // ε = 5 is the default (noise mostly 0, ±1); smaller ε give wide noise (n up to ~40·Δ)
+                    let eps_list: &[f64] = &[5.0, 0.9, 2.0, 10.0];
+                    let eps = eps_list[(case as usize + rep) % eps_list.len()];
+                    case += 1;
+                    let seed = rng.next_u64();
+                    let cap = 1u32 << ss;
+                    let max = if w >= 128 { u128::MAX } else { (1u128 << w) - 1 };
+                    // histogram: boundary buckets first (0, 1, max, max - 1, 2^(w-1) ± 1: wrap-around of negative noise and of the sum), then random
+                    let mut hist: Vec<u128> = vec![0, 1, max, max - 1, max / 2, max / 2 + 1, 2, max - 2, 0, 0, max, max];
+                    while hist.len() < bn {
+                        hist.push(if rng.below(4) == 0 { rng.below(4) as u128 } else { rng.next_u128() & max });
+                    }
+                    hist.truncate(bn);
+                    let k = 64 * bn + 512;
+                    let streams = match if mode == "sh" { streams_sh(seed, k) } else { streams_mal(seed, k) } {
+                        Ok(s) => s,
+                        Err(e) => {
+                            // reported as a request whose model answer cannot match
+                            out.push(format!("c12.e2e-broken {mode} {bn} {w} {ss} {seed} {}", e.replace(' ', "_")));
+                            continue;
+                        }
+                    };
+                    let p = p_of_s(1.0 / eps);
+                    let ss_: Vec<String> = streams
+                        .iter()
+                        .map(|s| {
+                            let s = s.as_ref().unwrap();
+                            let used = consumed(eps, delta, cap, bn, s);
+                            nat_list(&s[..used])
+                        })
+                        .collect();
+                    out.push(format!(
+                        "c12.e2e {mode} {bn} {w} {ss} {seed} {} {} {} {} {} {} {} {} {}",
+                        b(eps), b(delta), b(r_of(eps)), b(p), p_int(p), nat_list(&hist), ss_[0], ss_[1], ss_[2]
+                    ));
+                }
+            }
+        }
+    }
+}
+
+// ---------------------------------------------------------------- c12_dummies: apply_dp_padding
+mod pad {
+    use rand_core::RngCore;
+
+    use super::{super::proto::*, ScriptRng, b, p_int, p_of_s, r_of};
+    use crate::{
+        ff::{
+            U128Conversions,
+            boolean_array::{BA3, BA8},
+        },
+        helpers::{Direction, Role},
+        protocol::{
+            context::Context,
+            ipa_prf::oprf_padding::{
+                AggregationPadding, OPRFPadding, PaddingParameters, apply_dp_padding, insecure::OPRFPaddingDp, step::PaddingDpStep,
+            },
+        },
+        report::hybrid::IndistinguishableHybridReport,
+        secret_sharing::replicated::ReplicatedSecretSharing,
+        test_fixture::{Runner, TestWorld, TestWorldConfig},
+    };
+
+    const RUN_TIMEOUT_S: u64 = 60;
+    type BK = BA8;
+    type V = BA3;
+    type OprfRow = IndistinguishableHybridReport<BK, V>;
+    type AggRow = IndistinguishableHybridReport<BK, V, ()>;
+
+    fn world(seed: u64) -> TestWorld {
+        TestWorld::new_with(TestWorldConfig::default().with_seed(seed).with_timeout_secs(RUN_TIMEOUT_S))
+    }
+
+    macro_rules! streams_fn {
+        ($fname:ident, $method:ident) => {
+            /// the first `k` values of the three pairwise streams of `apply_dp_padding` (pass i excludes H3, H2, H1)
+            pub fn $fname(seed: u64, k: usize) -> Result<[Vec<u64>; 3], String> {
+                let res = block_on_timeout(RUN_TIMEOUT_S + 5, async move {
+                    let w = world(seed);
+                    w.$method((), move |ctx, ()| async move {
+                        let mut out: Vec<Option<Vec<u64>>> = vec![];
+                        for (step, excl) in [(PaddingDpStep::PaddingDpPass1, Role::H3), (PaddingDpStep::PaddingDpPass2, Role::H2), (PaddingDpStep::PaddingDpPass3, Role::H1)] {
+                            let pc = ctx.narrow(&step);
+                            match pc.role().direction_to(excl) {
+                                Some(dir) => {
+                                    let (mut left, mut right) = pc.prss_rng();
+                                    let rng = match dir {
+                                        Direction::Left => &mut right,
+                                        Direction::Right => &mut left,
+                                    };
+                                    out.push(Some((0..k).map(|_| rng.next_u64()).collect()));
+                                }
+                                None => out.push(None),
+                            }
+                        }
+                        out
+                    })
+                    .await
+                })?;
+                let mut streams: [Vec<u64>; 3] = [vec![], vec![], vec![]];
+                for pass in 0..3 {
+                    let have: Vec<&Vec<u64>> = (0..3).filter_map(|h| res[h][pass].as_ref()).collect();
+                    if have.len() != 2 || res[2 - pass][pass].is_some() {
+                        return Err(format!("pass {}: generating helpers are not exactly the two non-excluded ones", pass + 1));
+                    }
+                    if have[0] != have[1] {
+                        return Err(format!("pass {}: the two generating helpers hold different streams", pass + 1));
+                    }
+                    streams[pass] = have[0].clone();
+                }
+                Ok(streams)
+            }
+        };
+    }
+    streams_fn!(streams_sh, semi_honest);
+    streams_fn!(streams_mal, malicious);
+
+    fn mask3(z: [bool; 3]) -> u8 {
+        u8::from(z[0]) | (u8::from(z[1]) << 1) | (u8::from(z[2]) << 2)
+    }
+
+    macro_rules! oprf_fn {
+        ($fname:ident, $method:ident) => {
+            fn $fname(seed: u64, params: PaddingParameters) -> String {
+                let res = block_on_timeout(RUN_TIMEOUT_S + 5, async move {
+                    let w = world(seed);
+                    w.$method((), move |ctx, ()| async move {
+                        apply_dp_padding::<_, OprfRow, 256>(ctx, Vec::new(), &params).await.map_err(|e| format!("{e:?}"))
+                    })
+                    .await
+                });
+                let res = match res {
+                    Ok(r) => r,
+                    Err(e) => return e,
+                };
+                let outs: Vec<Vec<OprfRow>> = match res.into_iter().collect::<Result<Vec<_>, _>>() {
+                    Ok(o) => o,
+                    Err(e) => return format!("err {}", e.split(['(', ' ', '{']).next().unwrap_or("")),
+                };
+                let lens = outs[0].len() == outs[1].len() && outs[1].len() == outs[2].len();
+                let n = outs[0].len().min(outs[1].len()).min(outs[2].len());
+                let mut ok = true;
+                let mut rows = Vec::with_capacity(n);
+                for i in 0..n {
+                    let r = [&outs[0][i], &outs[1][i], &outs[2][i]];
+                    for h in 0..3 {
+                        let nx = (h + 1) % 3;
+                        ok &= r[h].match_key.right() == r[nx].match_key.left()
+                            && r[h].breakdown_key.right() == r[nx].breakdown_key.left()
+                            && r[h].value.right() == r[nx].value.left();
+                    }
+                    let mk = (r[0].match_key.left() + r[1].match_key.left() + r[2].match_key.left()).as_u128();
+                    let bk = (r[0].breakdown_key.left() + r[1].breakdown_key.left() + r[2].breakdown_key.left()).as_u128();
+                    let v = (r[0].value.left() + r[1].value.left() + r[2].value.left()).as_u128();
+                    let z: [bool; 3] = std::array::from_fn(|h| *r[h] == OprfRow::ZERO);
+                    rows.push(format!("{mk}.{bk}.{v}.{}", mask3(z)));
+                }
+                format!("{} {} {}", if rows.is_empty() { "-".into() } else { rows.join(",") }, if ok { "ok" } else { "inconsistent" }, if lens { "lens-equal" } else { "lens-differ" })
+            }
+        };
+    }
+    oprf_fn!(oprf_sh, semi_honest);
+    oprf_fn!(oprf_mal, malicious);
+
+    macro_rules! agg_fn {
+        ($fname:ident, $method:ident, $b:expr) => {
+            fn $fname(seed: u64, params: PaddingParameters) -> String {
+                let res = block_on_timeout(RUN_TIMEOUT_S + 5, async move {
+                    let w = world(seed);
+                    w.$method((), move |ctx, ()| async move {
+                        apply_dp_padding::<_, AggRow, $b>(ctx, Vec::new(), &params).await.map_err(|e| format!("{e:?}"))
+                    })
+                    .await
+                });
+                let res = match res {
+                    Ok(r) => r,
+                    Err(e) => return e,
+                };
+                let outs: Vec<Vec<AggRow>> = match res.into_iter().collect::<Result<Vec<_>, _>>() {
+                    Ok(o) => o,
+                    Err(e) => return format!("err {}", e.split(['(', ' ', '{']).next().unwrap_or("")),
+                };
+                let lens = outs[0].len() == outs[1].len() && outs[1].len() == outs[2].len();
+                let n = outs[0].len().min(outs[1].len()).min(outs[2].len());
+                let mut ok = true;
+                let mut rows = Vec::with_capacity(n);
+                for i in 0..n {
+                    let r = [&outs[0][i], &outs[1][i], &outs[2][i]];
+                    for h in 0..3 {
+                        let nx = (h + 1) % 3;
+                        ok &= r[h].breakdown_key.right() == r[nx].breakdown_key.left() && r[h].value.right() == r[nx].value.left();
+                    }
+                    let bk = (r[0].breakdown_key.left() + r[1].breakdown_key.left() + r[2].breakdown_key.left()).as_u128();
+                    let v = (r[0].value.left() + r[1].value.left() + r[2].value.left()).as_u128();
+                    let z: [bool; 3] = std::array::from_fn(|h| *r[h] == AggRow::ZERO);
+                    rows.push(format!("0.{bk}.{v}.{}", mask3(z)));
+                }
+                format!("{} {} {}", if rows.is_empty() { "-".into() } else { rows.join(",") }, if ok { "ok" } else { "inconsistent" }, if lens { "lens-equal" } else { "lens-differ" })
+            }
+        };
+    }
+    agg_fn!(agg_sh_256, semi_honest, 256);
+    agg_fn!(agg_sh_32, semi_honest, 32);
+    agg_fn!(agg_mal_256, malicious, 256);
+    agg_fn!(agg_mal_32, malicious, 32);
+
+    pub fn exec(req: &str) -> String {
+        let t: Vec<&str> = req.split(' ').collect();
+        let seed: u64 = t[3].parse().unwrap();
+        match t[1] {
+            "oprf" => {
+                let params = PaddingParameters {
+                    aggregation_padding: AggregationPadding::NoAggPadding,
+                    oprf_padding: OPRFPadding::Parameters {
+                        oprf_epsilon: super::f(t[4]),
+                        oprf_delta: super::f(t[5]),
+                        oprf_padding_sensitivity: t[6].parse().unwrap(),
+                        matchkey_cardinality_cap: t[7].parse().unwrap(),
+                    },
+                };
+                match t[2] {
+                    "sh" => oprf_sh(seed, params),
+                    "mal" => oprf_mal(seed, params),
+                    m => panic!("harness: unknown mode {m}"),
+                }
+            }
+            "agg" => {
+                let params = PaddingParameters {
+                    oprf_padding: OPRFPadding::NoOPRFPadding,
+                    aggregation_padding: AggregationPadding::Parameters {
+                        aggregation_epsilon: super::f(t[6]),
+                        aggregation_delta: super::f(t[7]),
+                        aggregation_padding_sensitivity: t[8].parse().unwrap(),
+                    },
+                };
+                match (t[2], t[4]) {
+                    ("sh", "256") => agg_sh_256(seed, params),
+                    ("sh", "32") => agg_sh_32(seed, params),
+                    ("mal", "256") => agg_mal_256(seed, params),
+                    ("mal", "32") => agg_mal_32(seed, params),
+                    _ => panic!("harness: no apply_dp_padding instantiation for {req}"),
+                }
+            }
+            k => panic!("harness: unknown padding kind {k}"),
+        }
+    }
+
+    /// number of u64 the pass consumes from `stream` (sizes the script; the MODEL decides what they mean)
+    fn consumed_oprf(eps: f64, delta: f64, sens: u32, cap: u32, stream: &[u64]) -> usize {
+        let d = OPRFPaddingDp::new(eps, delta, sens).unwrap();
+        let mut rng = ScriptRng { script: stream.to_vec(), pos: 0 };
+        for _ in 1..=cap {
+            let sample = d.sample(&mut rng);
+            rng.pos += 2 * sample as usize;
+        }
+        rng.pos
+    }
+    fn consumed_agg(eps: f64, delta: f64, sens: u32, bn: u32, stream: &[u64]) -> usize {
+        let d = OPRFPaddingDp::new(eps, delta, sens).unwrap();
+        let mut rng = ScriptRng { script: stream.to_vec(), pos: 0 };
+        for _ in 0..bn {
+            let _ = d.sample(&mut rng);
+        }
+        rng.pos
+    }
+
+    pub fn generate(rng: &mut Rng, thorough: bool, out: &mut Vec<String>) {
+        // (ε, δ, sensitivity, cardinality cap): the defaults, `relaxed()`, the unit test's, and a wide one
+        let oprf_cfgs: &[(f64, f64, u32, u32)] = &[(5.0, 1e-6, 2, 10), (10.0, 1e-4, 2, 3), (1.0, 1e-6, 2, 10), (5.0, 1e-6, 2, 1), (2.0, 1e-6, 3, 4)];
+        let agg_cfgs: &[(f64, f64, u32, u32)] = &[(5.0, 1e-6, 10, 256), (10.0, 1e-4, 3, 32), (5.0, 1e-6, 10, 32), (10.0, 1e-4, 3, 256), (2.0, 1e-6, 2, 32)];
+        let reps = if thorough { 5 } else { 1 };
+        for rep in 0..reps {
+            for (i, &(eps, delta, sens, cap)) in oprf_cfgs.iter().enumerate() {
+                for mode in ["sh", "mal"] {
+                    if !thorough && mode == "mal" && i % 2 == 1 {
+                        continue;
+                    }
+                    let seed = rng.next_u64();
+                    let k = 40_000;
+                    let streams = match if mode == "sh" { streams_sh(seed, k) } else { streams_mal(seed, k) } {
+                        Ok(s) => s,
+                        Err(e) => {
+                            out.push(format!("c12.pad-broken {mode} {seed} {}", e.replace(' ', "_")));
+                            continue;
+                        }
+                    };
+                    let p = p_of_s(1.0 / eps);
+                    let ss: Vec<String> = streams.iter().map(|s| nat_list(&s[..consumed_oprf(eps, delta, sens, cap, s)])).collect();
+                    out.push(format!(
+                        "c12.pad oprf {mode} {seed} {} {} {sens} {cap} {} {} {} {} {} {}",
+                        b(eps), b(delta), b(r_of(eps)), b(p), p_int(p), ss[0], ss[1], ss[2]
+                    ));
+                }
+            }
+            for (i, &(eps, delta, sens, bn)) in agg_cfgs.iter().enumerate() {
+                for mode in ["sh", "mal"] {
+                    if !thorough && mode == "mal" && i % 2 == 0 {
+                        continue;
+                    }
+                    let seed = rng.next_u64();
+                    let k = 40_000;
+                    let streams = match if mode == "sh" { streams_sh(seed, k) } else { streams_mal(seed, k) } {
+                        Ok(s) => s,
+                        Err(e) => {
+                            out.push(format!("c12.pad-broken {mode} {seed} {}", e.replace(' ', "_")));
+                            continue;
+                        }
+                    };
+                    let p = p_of_s(1.0 / eps);
+                    let ss: Vec<String> = streams.iter().map(|s| nat_list(&s[..consumed_agg(eps, delta, sens, bn, s)])).collect();
+                    out.push(format!(
+                        "c12.pad agg {mode} {seed} {bn} 8 {} {} {sens} {} {} {} {} {} {}",
+                        b(eps), b(delta), b(r_of(eps)), b(p), p_int(p), ss[0], ss[1], ss[2]
+                    ));
+                }
+            }
+            let _ = rep;
+        }
+    }
+}
+
+#[test]
+fn verif_c12_dummies() {
+    run_suite("c12_dummies", |rng, th| { let mut o = vec![]; pad::generate(rng, th, &mut o); o }, |req| {
+        if req.starts_with("c12.pad-broken") { "stream-replay-failed".into() } else { pad::exec(req) }
+    });
+}
+
+#[test]
+fn verif_c12_noise_e2e() {
+    run_suite("c12_noise_e2e", |rng, th| { let mut o = vec![]; e2e::generate(rng, th, &mut o); o }, |req| {
+        if req.starts_with("c12.e2e-broken") { "stream-replay-failed".into() } else { e2e::exec(req) }
+    });
+}
